@@ -10,17 +10,24 @@ import BasicModel.Lemmas.VarsInv
     store, of every VM instruction, of `execute` / `enter` / `interrupt` / `set_listing`, hence of every
     reachable state (`session_store_wf`, `session_no_defaults`), where "reads as 0 / the empty
     string" and "has no slot" are the same thing (`reachable_default_iff_no_slot`);
-  * the pool bound: `store` is OUT OF MEMORY exactly when more than 65 535 entries exist
-    (`store_oom_iff`), so no reachable state holds more than 65 536 (`session_pool_bounded`);
+  * the pool bound: `store` is OUT OF MEMORY exactly when more than 65 535 entries exist AND the name
+    is not in the pool yet (`store_oom_iff`, `full_pool_refuses_new_names`), so no reachable state
+    holds more than 65 536 (`session_pool_bounded`); on ANY pool, a full one included, a variable that
+    holds a value can be set back to a default value — the slot is freed, the pool shrinks by one
+    (`store_default_frees_any_pool`) — or overwritten, the pool keeping its size
+    (`store_overwrite_any_pool`);
   * after OUT OF MEMORY the session stays usable: an error that leaves the stack full — every failed
     push does (`push_overflow_is_full`) — makes `execute` clear the stack (`execute_error_full_clears`);
     the next call reports the error, and a direct line entered then starts with an empty stack, the
     variables, the listing and the program as they were (`oom_then_direct_line`).
 
-  FINDING (model = `var.rs`, see `full_pool_is_final`): `store` tests the pool BEFORE looking at the name
-  or the value, so once 65 536 entries exist even `A = 0` for a variable that holds a value is OUT OF
-  MEMORY: at the limit "setting variables back to 0 frees their slots" does not hold; only CLEAR, NEW,
-  ERASE or a DEFtype statement free slots then.
+  FINDING D23 (found here as `full_pool_is_final`, confirmed on the real interpreter, repaired in /repo by
+  dfafc65 and mirrored in `Model/Var.lean`): `store` used to test the pool BEFORE looking at the name, so
+  once 65 536 entries existed even `A = 0` for a variable that holds a value was OUT OF MEMORY and no
+  assignment could free a slot.  The repaired test refuses only a name that is not in the pool yet; what
+  is proved now is the positive statement the property wants, with no hypothesis on the size of the pool
+  (`store_default_frees_any_pool`, `store_overwrite_any_pool`), and the exact refusal condition
+  (`store_oom_iff`).
 -/
 namespace Basic
 namespace Thm.C18
@@ -69,17 +76,45 @@ theorem noDefaults_invariant :
    fun _ _ _ hv h => noDefaults_eraseArray hv h,
    fun _ _ _ _ _ hv h => noDefaults_defTy hv h⟩
 
-/-- **the exact condition of OUT OF MEMORY in `store`**: more than 65 535 entries, whatever the name
-    and the value -/
+/-- **the exact condition of OUT OF MEMORY in `store`**: more than 65 535 entries AND a name the pool
+    does not hold yet — whatever the value -/
 theorem store_oom_iff (v : Var) (n : Str) (x : Val) :
-    (∃ e, v.store n x = .error e ∧ e.code = Code.outOfMemory) ↔ v.vars.length > 65535 :=
+    (∃ e, v.store n x = .error e ∧ e.code = Code.outOfMemory) ↔
+      (v.vars.length > 65535 ∧ AL.contains n v.vars = false) :=
   Lemmas.VarPool.store_oom_iff v n x
 
-/-- FINDING: a pool of 65 536 entries is final for `store` — assigning `0` to a variable that holds a
-    value is OUT OF MEMORY too, so at the limit no assignment frees a slot -/
-theorem full_pool_is_final (v : Var) (h : v.vars.length = 65536) (n : Str) (x : Val) :
-    v.store n x = err Code.outOfMemory :=
-  store_full_refuses_zero v h n x
+/-- a full pool refuses exactly the new names -/
+theorem full_pool_refuses_new_names (v : Var) (h : v.vars.length > 65535) (n : Str) (x : Val)
+    (hn : AL.contains n v.vars = false) : v.store n x = err Code.outOfMemory :=
+  Lemmas.VarPool.full_pool_refuses_new_names v h n x hn
+
+/-- **"setting variables back to 0 or the empty string frees their slots" — on ANY pool**, a full one
+    included (D23 repaired): a variable that holds a value, assigned a value whose conversion `y` to the
+    variable's type is a default (`0`, `±0.0`, `""`): the store SUCCEEDS, the key is removed, the pool is
+    at least one entry smaller — exactly one with distinct keys -/
+theorem store_default_frees_any_pool (v : Var) (n : Str) (x y : Val) (t : VarTy)
+    (hc : AL.contains n v.vars = true) (ht : v.tyOf n = .ok (some t)) (hy : convTo t x = .ok y)
+    (hd : Var.isDefault y = true) :
+    ∃ v', v.store n x = .ok v' ∧ v'.vars = AL.erase n v.vars ∧ AL.get n v'.vars = none ∧
+      v'.vars.length + 1 ≤ v.vars.length ∧ (AL.NoDup v.vars → v'.vars.length + 1 = v.vars.length) :=
+  Lemmas.VarPool.store_default_frees_any_pool v n x y t hc ht hy hd
+
+/-- **overwriting a variable that holds a value works on ANY pool**, a full one included, and keeps
+    the size of the pool -/
+theorem store_overwrite_any_pool (v : Var) (n : Str) (x y : Val) (t : VarTy)
+    (hc : AL.contains n v.vars = true) (ht : v.tyOf n = .ok (some t)) (hy : convTo t x = .ok y)
+    (hd : Var.isDefault y = false) :
+    ∃ v', v.store n x = .ok v' ∧ v'.vars = AL.set n y v.vars ∧ AL.get n v'.vars = some y ∧
+      v'.vars.length ≤ v.vars.length ∧ (AL.NoDup v.vars → v'.vars.length = v.vars.length) :=
+  Lemmas.VarPool.store_overwrite_any_pool v n x y t hc ht hy hd
+
+/-- on the pool of 65 536 entries `fullPool` (`A% = 5` and 65 535 others): `A% = 0.4` — converted value
+    `0` — succeeds and frees the slot -/
+example : ∃ v', fullPool.store "A%".toList (.sng 0x3ECCCCCD) = .ok v' ∧ AL.get "A%".toList v'.vars = none ∧
+    v'.vars.length + 1 ≤ fullPool.vars.length := by
+  obtain ⟨v', h1, _, h3, h4, _⟩ := store_default_frees_any_pool fullPool "A%".toList (.sng 0x3ECCCCCD) (.int 0)
+    .integer fullPool_contains rfl (by decide) rfl
+  exact ⟨v', h1, h3, h4⟩
 
 /-! ### every instruction, every API call -/
 
